@@ -6,9 +6,12 @@ import (
 	"regexp"
 	"sort"
 	"strings"
+	"sync"
 	"unsafe"
 
 	"github.com/krotik/ecal/engine"
+	"github.com/krotik/ecal/interpreter"
+	"github.com/krotik/ecal/parser"
 )
 
 // ---------------------------------------------------------------------------
@@ -737,4 +740,93 @@ func init() {
 			c01Processor(c)
 			c.Sample("ruleset 2 scope map[s:true] events [n1:b n1:a]")
 		}})
+}
+
+// (7) the same decision reached from ECAL: sinks with scopematch, events added
+// with a scope map as fourth argument of addEvent / addEventAndWait.
+func c01EcalScopes(c *Ctx) {
+	paths := []string{"", "s", "s.t", "x"}
+	reqs := []string{"", "s", "s.t", "s.t.u", "s.x", "x", "y"}
+	n := 1
+	for range paths {
+		n *= 3
+	}
+	for code := 0; code < n; code++ {
+		if c.Stopped() {
+			return
+		}
+		if !c.Mine() {
+			continue
+		}
+		defs := map[string]bool{}
+		var lit []string
+		x := code
+		for _, p := range paths {
+			switch x % 3 {
+			case 1:
+				defs[p] = true
+				lit = append(lit, fmt.Sprintf("%q: true", p))
+			case 2:
+				defs[p] = false
+				lit = append(lit, fmt.Sprintf("%q: false", p))
+			}
+			x /= 3
+		}
+		// one sink per requirement, plus one with two requirements and one without scopematch
+		var src strings.Builder
+		var want []string
+		for i, r := range reqs {
+			fmt.Fprintf(&src, "sink s%d\n  kindmatch [\"k\"],\n  scopematch [%q],\n  {\n    hit(\"s%d\")\n  }\n", i, r, i)
+			if refScopeAllowed(defs, r) {
+				want = append(want, fmt.Sprintf("s%d", i))
+			}
+		}
+		fmt.Fprintf(&src, "sink two\n  kindmatch [\"k\"],\n  scopematch [\"s\", \"x\"],\n  {\n    hit(\"two\")\n  }\nsink none\n  kindmatch [\"k\"],\n  {\n    hit(\"none\")\n  }\n")
+		if refScopeAllowed(defs, "s") && refScopeAllowed(defs, "x") {
+			want = append(want, "two")
+		}
+		want = append(want, "none")
+		sort.Strings(want)
+		for _, call := range []string{"addEventAndWait", "addEvent"} {
+			prog := src.String() + fmt.Sprintf("%s(\"e\", \"k\", {}, {%s})\n", call, strings.Join(lit, ", "))
+			c.Begin(prog)
+			var mu sync.Mutex
+			var hits []string
+			var erpRef *interpreter.ECALRuntimeProvider
+			out := evalECAL(prog, evalOpts{budget: 100000, setup: func(vs parser.Scope, erp *interpreter.ECALRuntimeProvider) {
+				erpRef = erp
+				vs.SetValue("hit", &hfunc{func(args []interface{}) (interface{}, error) {
+					mu.Lock()
+					hits = append(hits, fmt.Sprint(args[0]))
+					mu.Unlock()
+					return nil, nil
+				}})
+			}})
+			if erpRef != nil {
+				erpRef.Processor.Finish() // waits for queued events (addEvent does not wait)
+			}
+			if out.panicKey != "" || out.err != nil {
+				c.Viol("ecal scope program fails", fmt.Sprintf("%v %v\n%s", out.panicKey, out.err, prog), prog)
+				continue
+			}
+			c.Nontrivial()
+			mu.Lock()
+			got := append([]string{}, hits...)
+			mu.Unlock()
+			sort.Strings(got)
+			if fmt.Sprint(got) != fmt.Sprint(want) {
+				c.Viol("ecal-scope-decision-differs", fmt.Sprintf("%s with scope {%s}: sinks fired %v, expected %v (sink s<i> requires %v)", call, strings.Join(lit, ", "), got, want, reqs), prog)
+				continue
+			}
+			c.Outcome("fired-set-equal")
+		}
+	}
+	c.Sample("sink s1 kindmatch [\"k\"], scopematch [\"s\"], {...}; addEventAndWait(\"e\", \"k\", {}, {\"\": true, \"s\": false}) fires only sinks not requiring s")
+}
+
+func init() {
+	register(&Part{Prop: "C01", Name: "ecal-scopes", Quick: 2, Thor: 2,
+		Desc: "the scope decision reached from ECAL: 7 sinks with one scopematch requirement each (from {\"\", s, s.t, s.t.u, s.x, x, y}), one with two, one without, x every scope map over {\"\", s, s.t, x} -> {absent, true, false} (81 maps) given as fourth argument of addEventAndWait and of addEvent: the sinks that fire must be exactly those the lexical scope rule allows",
+		Rule: "81 scope maps x 2 functions; every case non-trivial",
+		Run:  c01EcalScopes})
 }
